@@ -148,6 +148,8 @@ struct Seg {
     /// character keys typed before termination (for the backspace count / delay-type flush)
     typed: Vec<String>,
     mode: String,
+    /// (sequence-noerase n) performed in this episode
+    noerase: usize,
 }
 
 impl Prop for C12 {
@@ -251,7 +253,14 @@ impl Prop for C12 {
         let t2 = *r.pick(&[12u64, 30]);
         let mode2 = *r.pick(&["hidden-suppressed", "hidden-delay-type", "visible-backspaced"]);
         let mut cfg = format!("(defcfg process-unmapped-keys yes sequence-timeout {t} sequence-input-mode {mode}{})\n", if always_on { " sequence-always-on yes" } else { "" });
-        cfg.push_str(&format!("(defsrc f1 f2)\n(deflayer base sldr (sequence {t2} {mode2}))\n"));
+        // a key that only performs (sequence-noerase n): n typed characters of the episode in which
+        // it is pressed need no erasing; it must not change any other episode
+        let noerase_n = if r.chance(300) { r.range(1, 3) } else { 0 };
+        if noerase_n > 0 {
+            cfg.push_str(&format!("(defsrc f1 f2 f3)\n(deflayer base sldr (sequence {t2} {mode2}) (sequence-noerase {noerase_n}))\n"));
+        } else {
+            cfg.push_str(&format!("(defsrc f1 f2)\n(deflayer base sldr (sequence {t2} {mode2}))\n"));
+        }
         cfg.push_str("(defvirtualkeys");
         for i in 0..seqs.len() {
             cfg.push_str(&format!(" v{i} {}", MARKERS[i]));
@@ -292,6 +301,14 @@ impl Prop for C12 {
                 ops.push(Op::Gap(r.range(1, 2) as u32));
                 ops.push(Op::Release(code(lk)));
                 ops.push(Op::Gap(r.range(1, 3) as u32));
+            }
+            let mut ne_here = 0;
+            if noerase_n > 0 && !always_on && tt >= 25 && r.chance(500) {
+                ne_here = noerase_n;
+                ops.push(Op::Press(code("f3")));
+                ops.push(Op::Gap(1));
+                ops.push(Op::Release(code("f3")));
+                ops.push(Op::Gap(1));
             }
             let kind = *r.pick(&["complete", "complete", "complete", "foreign", "timeout"]);
             // number of items typed before the special event
@@ -403,8 +420,8 @@ impl Prop for C12 {
                     for op in ops.iter().rev() {
                         match op {
                             Op::Gap(g) => since += *g as u64,
-                            Op::Press(c) if MODS.iter().all(|m| code(m.1) != *c) || true => {
-                                let _ = c;
+                            // (the noerase key is not a typed key and does not restart the timeout)
+                            Op::Press(c) if *c != code("f3") => {
                                 found = true;
                                 break;
                             }
@@ -439,7 +456,7 @@ impl Prop for C12 {
             // silence so that the next segment starts outside sequence mode
             ops.push(Op::Gap((t.max(t2) + 8) as u32));
             let to = ops.len();
-            segs.push(format!("{kind_s};{si};{from};{to};{leader_at};{end_at};{};{mm};{tt}", typed.join(",")));
+            segs.push(format!("{kind_s};{si};{from};{to};{leader_at};{end_at};{};{mm};{tt};{ne_here}", typed.join(",")));
         }
         case.set("segs", segs.join("/"));
         case.ops = ops;
@@ -554,6 +571,7 @@ impl Prop for C12 {
                     end_at: f[5].parse().ok()?,
                     typed: f[6].split(',').filter(|k| !k.is_empty()).map(|k| k.to_string()).collect(),
                     mode: f[7].to_string(),
+                    noerase: f.get(9).and_then(|x| x.parse().ok()).unwrap_or(0),
                 })
             })
             .collect();
@@ -696,7 +714,7 @@ impl Prop for C12 {
                         let want: Vec<String> = {
                             // reconstruct the physical press order from the ops
                             let lo = if sg.leader_at != usize::MAX { after(sg.leader_at) } else { sg.from };
-                            case.ops[lo..=sg.end_at].iter().filter_map(|op| if let Op::Press(c) = op { Some(code_name(*c)) } else { None }).filter(|k| k != "F1" && k != "F2").collect()
+                            case.ops[lo..=sg.end_at].iter().filter_map(|op| if let Op::Press(c) = op { Some(code_name(*c)) } else { None }).filter(|k| k != "F1" && k != "F2" && k != "F3").collect()
                         };
                         if taps != want {
                             o.set_fail("C12:hidden-delay-type-flush-differs", format!("failed sequence must type {:?} as taps, got {:?}; {}", want, taps, show()), ftags.clone());
@@ -710,7 +728,7 @@ impl Prop for C12 {
                 }
                 _ => {
                     // visible-backspaced
-                    let want_bs = if expect_marker { typed_keys.len() } else { 0 };
+                    let want_bs = if expect_marker { typed_keys.len().saturating_sub(sg.noerase) } else { 0 };
                     if bs != want_bs {
                         o.set_fail("C12:visible-backspaced-count", format!("{} characters typed, {} backspaces sent (expected {}); {}", typed_keys.len(), bs, want_bs, show()), ftags.clone());
                         return o;
